@@ -5,7 +5,8 @@ CHECKS = [
      "technique": "bounded-exhaustive enumeration of network shapes (explicit-state, real code) + mass-balance oracle",
      "text": "Every network of scope H (all multigraph skeletons n<=4,e<=4(5) up to isomorphism x every feeder position x "
              "water/gas x every point within d<=1 (quick) / d<=2 (thorough) deviations of an 18-kind branch alphabet, 8 "
-             "load kinds, heights, in_service, feeder variants, labels, friction model, numba, damping) plus circulation-"
+             "load kinds (incl. 0/1 status columns), heights, in_service, feeder variants, labels, friction model, numba, damping "
+             "method and constant damping factor - the latter with the solver's default tolerances) plus circulation-"
              "pump loops is built through create_*, solved by the real pipeflow and its res_* tables are checked for "
              "junction-wise and global mass balance to 1e-9 relative. Exhaustive within the stated scope; nothing beyond it.",
      "note": "trusted: CPython/numpy/pandas, the harness' NetSpec builder (public create_* only), tight solver options; "
@@ -26,12 +27,13 @@ CHECKS += [
              "end temperatures differ; alphabet values only"},
     {"property_id": "C04", "category": "exploration", "design_ref": "DESIGN.md 4/C04",
      "technique": "exhaustive flag-lattice enumeration (all 2^k patterns) on the real solver + reachability model + differential run",
-     "text": "All 2^k in_service/opened/control_active patterns (k=9-10 quick, 9-14 thorough) on seven superset networks "
+     "text": "All 2^k in_service/opened/control_active patterns (k=9-10 quick, 9-14 thorough) on eight superset networks "
              "(two-feeder water mesh with pressure and flow controller, ring with junction-pipe valves and colliding "
              "labels, gas tree with compressor, heat ladder with two circulation pumps, thermal-supply net with a p-type "
-             "feeder in sequential and bidirectional mode, chain with feeders on junctions that can be out of service) are run through "
+             "feeder in sequential and bidirectional mode, chain with feeders on junctions that can be out of service, pressure controllers met from both sides) are run through "
              "the real pipeflow; NaN pattern of every result row is compared with an independent reachability model "
-             "(valve nodes, one-way pressure controller) and all results with those of the pruned network; "
+             "(valve nodes, one-way controlling pressure controller) and all results with those of the pruned network; thermal "
+             "supersets are re-run with the compiled kernels (same verdict and pattern); "
              "no supplied junction => PipeflowNotConverged, any other exception type is a violation.",
      "note": "the reachability model is harness code written from the statement and the component documentation; "
              "a feeder on an out-of-service junction supplies nothing; only the sub-case where another feeder re-activates that "
@@ -78,21 +80,21 @@ CHECKS += [
     {"property_id": "C07", "category": "model_checking", "design_ref": "DESIGN.md 4/C07",
      "technique": "full-product enumeration of twin-kernel inputs + engine-differential on enumerated networks + explicit-state BFS over reuse histories",
      "text": "(a) each numba/numpy twin kernel is evaluated on the full product of per-column alphabets and compared output by "
-             "output; (b) scope H d<=1, scope T and loops are solved with both engines; (c) all histories (depth<=2/3) of "
+             "output; (b) scope H d<=1, scope T (water and gas, d<=1/2 per fluid) and loops are solved with both engines; (c) all histories (depth<=2/3) of "
              "pipeflow calls with only_update_hydraulic_matrix/reuse_internal_data and load/set-point edits are replayed on "
              "one net object and every state is compared with a fresh calculation.",
      "note": "Jacobian outputs of the kernels are compared informationally only (the statement is about results)"},
     {"property_id": "C09", "category": "exploration", "design_ref": "DESIGN.md 4/C09",
      "technique": "exhaustive enumeration of rewrite application sites on enumerated networks with differential oracle",
-     "text": "On every scope H / scope T base every application site of seven rewrites (reverse branch, sections <-> series "
+     "text": "On every scope H / scope T base (T: water and gas, sequential and bidirectional) every application site of seven rewrites (reverse branch, sections <-> series "
              "pipes, re-sectioning, load splitting, source <-> negative sink, disabled <-> deleted, pressure shift; thorough: all "
              "pairs on thermal bases) is applied to the NetSpec and both descriptions are solved and compared on element "
              "identity with the sign/column transformation the rewrite implies.",
      "note": "a differing convergence verdict is counted, not flagged (Newton's start values follow the declared orientation)"},
     {"property_id": "C10", "category": "exploration", "design_ref": "DESIGN.md 4/C10",
      "technique": "bounded-exhaustive enumeration of thermal networks on the real solver + independent thermal-law oracle",
-     "text": "Six open thermal topologies (every point within d<=2/3 deviations of per-pipe sections/u/ambient/outer diameter/"
-             "orientation and global mode/numba/ambient option) and circulation-pump ladders in sequential and bidirectional "
+     "text": "Eight open thermal topologies (every point within d<=2/3 deviations of per-pipe sections/u/ambient/outer diameter/"
+             "orientation and global fluid/mode/numba/ambient option; one with a pressure-only feeder and an absorbing grid) and circulation-pump ladders in sequential and bidirectional "
              "mode; per flowing section the exponential cooling law with mean cp, per junction the energy balance with mean "
              "cp weights, fixed feed temperatures and the min/max principle are re-evaluated from the result tables to 1e-7 K.",
      "note": "section temperatures are read from the solver's node table; zero-flow branches excluded"},
@@ -142,9 +144,11 @@ CHECKS += [
      "text": "For all 30 create_* functions the valid call and every fault of the menu at every argument position on {junction-only, "
              "populated} x 5 sectors: a rejected call must leave every table, geodata, component_list and std types unchanged; a "
              "call that neither raises nor adds rows is a violation; given values and dtypes are stored; documented defaults "
-             "(docstrings) equal signature defaults; bulk = singles (incl. Series arguments on partially filled tables); "
+             "(docstrings, also behind the deprecation wrapper) equal signature defaults; bulk = singles (incl. Series / list / array / "
+             "None argument forms on partially filled tables); "
              "every pipe std type and pump type equals creation from its parameters.",
-     "note": "fault menu written from the statement; pipe geodata content is not validated"},
+     "note": "fault menu written from the statement (references, indices, lengths, geodata counts, unstorable values); pipe "
+             "geodata content is not validated"},
     {"property_id": "C17", "category": "model_checking", "design_ref": "DESIGN.md 4/C17",
      "technique": "explicit-state BFS over toolbox operation sequences on the real net against a name-keyed reference model",
      "text": "All sequences (depth 2 quick / 3 thorough) of 29 toolbox operations on two nets with junction-pipe valves whose pipe "
